@@ -128,25 +128,28 @@ Definition fd_bytes (scr : list fdres) : list byte :=
 Definition src_bytes (s : source) : list byte := match s with SrcMem bs => bs | SrcFd scr => fd_bytes scr end.
 (* a memory source holds at least the bytes the caller asks for *)
 Definition src_ok (s : source) (want : Z) : Prop := match s with SrcMem bs => want <= zlen bs | SrcFd _ => True end.
+Definition is_fd (s : source) : Prop := match s with SrcFd _ => True | SrcMem _ => False end.
 
 Lemma getf_spec src n want m bytes src' : 0 < n -> n <= want -> src_ok src want -> getf src n = (m, bytes, src') ->
   m <= n /\ zlen bytes = Z.max 0 m /\ src_bytes src = bytes ++ src_bytes src' /\ src_ok src' (want - Z.max 0 m)
-  /\ (forall bs, src = SrcMem bs -> m = n /\ bytes = ztake n bs /\ src' = SrcMem (zdrop n bs)).
+  /\ (forall bs, src = SrcMem bs -> m = n /\ bytes = ztake n bs /\ src' = SrcMem (zdrop n bs))
+  /\ (is_fd src -> is_fd src').
 Proof.
   intros Hn Hw Hok. destruct src as [bs|[|[b| |] r]]; cbn [getf src_ok] in *.
   - intros E; inversion E; subst; clear E. cbn [src_bytes src_ok].
     rewrite zlen_ztake, zlen_zdrop, ztake_zdrop.
     split; [lia|]. split; [lia|]. split; [reflexivity|]. split; [lia|].
+    split; [|intros []].
     intros bs' E; inversion E; subst. repeat split; reflexivity.
-  - intros E; inversion E; subst; clear E. cbn. repeat split; try lia; try reflexivity; discriminate.
+  - intros E; inversion E; subst; clear E. cbn. repeat split; try lia; try reflexivity; try discriminate; try exact I.
   - intros E; inversion E; subst; clear E. cbn [src_bytes src_ok fd_bytes flat_map].
     pose proof (zlen_nonneg b). rewrite !zlen_ztake.
     split; [lia|]. split; [lia|]. split.
     { rewrite <- (ztake_zdrop n b) at 1. rewrite <- app_assoc. f_equal.
       destruct (zdrop n b); cbn [fd_bytes flat_map app]; reflexivity. }
-    split; [exact I|]. intros; discriminate.
-  - intros E; inversion E; subst; clear E. cbn. repeat split; try lia; try reflexivity; discriminate.
-  - intros E; inversion E; subst; clear E. cbn. repeat split; try lia; try reflexivity; discriminate.
+    split; [exact I|]. split; [intros; discriminate|]. intros _. exact I.
+  - intros E; inversion E; subst; clear E. cbn. repeat split; try lia; try reflexivity; try discriminate; try exact I.
+  - intros E; inversion E; subst; clear E. cbn. repeat split; try lia; try reflexivity; try discriminate; try exact I.
 Qed.
 
 (* ---- the copy loop of cbuf_writer ---- *)
@@ -158,21 +161,22 @@ Lemma wloop_gen fuel : forall S data i nleft src m0 data' i' nleft' src' m',
     /\ rot i' data' = zdrop (zlen w) (rot i data ++ w)
     /\ src_bytes src = w ++ src_bytes src'
     /\ (nleft' = nleft -> 0 < nleft -> m' <= 0)
-    /\ (forall bs, src = SrcMem bs -> nleft' = 0 /\ w = ztake nleft bs).
+    /\ (forall bs, src = SrcMem bs -> nleft' = 0 /\ w = ztake nleft bs)
+    /\ (is_fd src -> is_fd src').
 Proof.
   induction fuel as [|f IH]; intros S data i nleft src m0 data' i' nleft' src' m' LS Hi Hn Hok Hf.
   - cbn [wloop]. intros E; inversion E; subst; clear E. exists []. assert (nleft' = 0) by lia. subst.
     rewrite zlen_nil, Z.add_0_r, Z.mod_small, app_nil_r, zdrop_neg by lia.
-    repeat split; try lia; try reflexivity; try (symmetry; apply ztake_neg; lia).
+    repeat split; try lia; try reflexivity; try (symmetry; apply ztake_neg; lia); auto.
   - cbn [wloop]. destruct (nleft <=? 0) eqn:E0; [apply Z.leb_le in E0 | apply Z.leb_gt in E0].
     { intros E; inversion E; subst; clear E. exists []. assert (nleft' = 0) by lia. subst.
       rewrite zlen_nil, Z.add_0_r, Z.mod_small, app_nil_r, zdrop_neg by lia.
-      repeat split; try lia; try reflexivity; try (symmetry; apply ztake_neg; lia). }
+      repeat split; try lia; try reflexivity; try (symmetry; apply ztake_neg; lia); auto. }
     set (n := Z.min nleft (S - i)).
     assert (Hn' : 0 < n /\ n <= nleft /\ n <= S - i) by (unfold n; lia).
     destruct (getf src n) as [[m bytes] src1] eqn:Eg.
     assert (Hn1 : 0 < n) by lia. assert (Hn2 : n <= nleft) by lia.
-    destruct (getf_spec src n nleft m bytes src1 Hn1 Hn2 Hok Eg) as (G1 & G2 & G3 & G4 & G5).
+    destruct (getf_spec src n nleft m bytes src1 Hn1 Hn2 Hok Eg) as (G1 & G2 & G3 & G4 & G5 & G6).
     destruct (0 <? m) eqn:Em; [apply Z.ltb_lt in Em | apply Z.ltb_ge in Em].
     + rewrite Z.max_r in G2, G4 by lia.
       assert (SR : rot ((i + m) mod S) (splice data i bytes) = zdrop m (rot i data ++ bytes)).
@@ -181,7 +185,7 @@ Proof.
       pose proof (Z.mod_pos_bound (i + m) S ltac:(lia)) as MB.
       destruct (n =? m) eqn:Enm; [apply Z.eqb_eq in Enm | apply Z.eqb_neq in Enm].
       * intros E. apply IH in E; try lia; try assumption.
-        destruct E as (w1 & W1 & W2 & W3 & W4 & W5 & W6 & W7 & W8 & W9).
+        destruct E as (w1 & W1 & W2 & W3 & W4 & W5 & W6 & W7 & W8 & W9 & W10).
         exists (bytes ++ w1). rewrite zlen_app, G2.
         split; [lia|]. split; [lia|]. split; [assumption|]. split; [assumption|].
         split. { rewrite W5. rewrite Zplus_mod_idemp_l. f_equal. lia. }
@@ -191,20 +195,21 @@ Proof.
           rewrite zdrop_zdrop by lia. rewrite <- app_assoc. f_equal. lia. }
         split. { rewrite G3, W7, app_assoc. reflexivity. }
         split; [intros; lia|].
+        split; [|intros Hfd; apply W10, G6, Hfd].
         intros bs Hs. destruct (G5 bs Hs) as (Gm & Gb & Gs). destruct (W9 _ Gs) as (W91 & W92).
         split; [assumption|]. rewrite W92, Gb. rewrite <- Enm.
         rewrite <- ztake_split by lia. f_equal. lia.
       * intros E; inversion E; subst data' i' nleft' src' m'; clear E. exists bytes. rewrite G2.
         split; [lia|]. split; [lia|]. split; [assumption|]. split; [assumption|].
         split; [reflexivity|]. split; [assumption|]. split; [assumption|].
-        split; [intros; lia|].
+        split; [intros; lia|]. split; [|exact G6].
         intros bs Hs. destruct (G5 bs Hs). lia.
     + rewrite Z.max_l in G2, G4 by lia. apply zlen_0_nil in G2. subst bytes.
       intros E; inversion E; subst; clear E. exists [].
       rewrite zlen_nil, Z.add_0_r, Z.mod_small, app_nil_r, zdrop_neg by lia.
       split; [lia|]. split; [lia|]. split; [reflexivity|]. split; [lia|].
       split; [reflexivity|]. split; [reflexivity|]. split; [assumption|].
-      split; [intros; lia|].
+      split; [intros; lia|]. split; [|exact G6].
       intros bs Hs. destruct (G5 bs Hs). lia.
 Qed.
 
@@ -260,7 +265,8 @@ Proof.
     set (R := rot (cb_i_in cb) (cb_data cb)).
     assert (LR : zlen R = S) by (unfold R; rewrite zlen_rot; assumption).
     assert (EA : ztake (cb_used cb) (rot (cb_i_out cb) (cb_data cb)) = zdrop (S - cb_used cb) R).
-    { unfold R. rewrite <- Iin. rewrite <- Ldata at 1 3. rewrite <- abs_window by lia. reflexivity. }
+    { unfold R. rewrite (abs_window (cb_data cb) (cb_i_out cb) (cb_used cb)) by (rewrite Ldata; lia).
+      rewrite Ldata, Iin. reflexivity. }
     rewrite EA.
     unfold fifo_write, qlast. change qskip with (@zdrop byte). change qlen with (@zlen byte).
     rewrite zdrop_zdrop by lia.
@@ -269,7 +275,164 @@ Proof.
     assert (LD : zlen (zdrop (S - cb_used cb) R) = cb_used cb) by (rewrite zlen_zdrop; lia).
     rewrite zdrop_app_r by (subst used'; lia). rewrite LF, zlen_app, LD, Lw.
     subst used'. destruct (Z_le_gt_dec (cb_used cb + n) (cb_size cb)).
-    - rewrite Z.min_l by lia. rewrite !zdrop_neg by (subst S; lia). reflexivity.
+    - rewrite Z.min_l by lia. rewrite (zdrop_neg (cb_used cb + n - cb_size cb)) by lia.
+      rewrite zdrop_neg by (subst S; lia). reflexivity.
     - rewrite Z.min_r by lia. f_equal. subst S. lia. }
   repeat split; reflexivity.
+Qed.
+
+(* ---- spec-side facts ---- *)
+Lemma fifo_write_fits cap (q w : list byte) : zlen q + zlen w <= cap -> fifo_write cap q w = q ++ w.
+Proof.
+  intros. unfold fifo_write, qlast. change qskip with (@zdrop byte). change qlen with (@zlen byte).
+  apply zdrop_neg. rewrite zlen_app. lia.
+Qed.
+
+Lemma fifo_write_nil cap (q : list byte) : zlen q <= cap -> fifo_write cap q [] = q.
+Proof. intros. rewrite fifo_write_fits by (rewrite zlen_nil; lia). apply app_nil_r. Qed.
+
+Lemma fifo_dropped_nil cap (q : list byte) : zlen q <= cap -> fifo_dropped cap q [] = 0.
+Proof. intros. unfold fifo_dropped, qlen, zlen in *. cbn [length]. lia. Qed.
+
+(* ---- grow if needed ---- *)
+Lemma prep_spec cb len cb1 nfree : Inv cb -> 0 < len -> writer_prep cb len = (cb1, nfree) ->
+  Inv cb1 /\ abs cb1 = abs cb /\ cb_used cb1 = cb_used cb /\ cb_maxsize cb1 = cb_maxsize cb
+  /\ cb_minsize cb1 = cb_minsize cb /\ cb_overwrite cb1 = cb_overwrite cb
+  /\ nfree = cb_size cb1 - cb_used cb1 /\ (len <= nfree \/ cb_size cb1 = cb_maxsize cb1).
+Proof.
+  intros H Hl. pose proof (Inv_valid _ H) as V. unfold valid_prop in V. cbv zeta in V.
+  unfold writer_prep.
+  destruct ((cb_size cb - cb_used cb <? len) && (cb_size cb <? cb_maxsize cb)) eqn:E.
+  - apply andb_true_iff in E. destruct E as (E1 & E2). apply Z.ltb_lt in E1, E2.
+    destruct (grow cb (len - (cb_size cb - cb_used cb))) as [cb' g] eqn:Eg.
+    intros E; inversion E; subst; clear E.
+    apply grow_spec in Eg; [|assumption|lia|lia].
+    destruct Eg as (G1 & G2 & G3 & G4 & G5 & G6 & G7 & G8 & G9).
+    split; [assumption|]. repeat split; try assumption; try lia.
+  - intros E'; inversion E'; subst; clear E'.
+    apply andb_false_iff in E. split; [assumption|]. repeat split; try reflexivity.
+    destruct E as [E|E]; apply Z.ltb_ge in E; lia.
+Qed.
+
+(* ---- cbuf_writer ---- *)
+Lemma writer_spec cb len src cb' ret d src' : Inv cb -> 0 < len -> src_ok src len ->
+  writer cb len src = (cb', ret, d, src') ->
+  exists w, Inv cb' /\ src_bytes src = w ++ src_bytes src'
+    /\ abs cb' = fifo_write (cb_maxsize cb) (abs cb) w
+    /\ d = fifo_dropped (cb_maxsize cb) (abs cb) w
+    /\ (0 < zlen w -> ret = zlen w) /\ (zlen w = 0 -> ret <= 0) /\ zlen w <= len
+    /\ cb_maxsize cb' = cb_maxsize cb /\ cb_minsize cb' = cb_minsize cb /\ cb_overwrite cb' = cb_overwrite cb
+    /\ (forall bs, src = SrcMem bs -> cb_overwrite cb = WRAP_MANY -> w = ztake len bs /\ ret = len)
+    /\ (is_fd src -> is_fd src').
+Proof.
+  intros H Hl Hok. unfold writer.
+  destruct (writer_prep cb len) as [cb1 nfree] eqn:Ep.
+  apply prep_spec in Ep; [|assumption|assumption].
+  destruct Ep as (I1 & A1 & U1 & M1 & N1 & O1 & F1 & C1).
+  pose proof (Inv_valid _ I1) as V. unfold valid_prop in V. cbv zeta in V.
+  pose proof (zlen_abs _ I1) as LA. rewrite A1 in LA.
+  assert (D0 : fifo_dropped (cb_maxsize cb) (abs cb) [] = 0).
+  { apply fifo_dropped_nil. lia. }
+  destruct (writer_len cb1 len) as [len'|] eqn:El.
+  2:{ intros E; inversion E; subst; clear E. exists [].
+      split; [assumption|]. split; [reflexivity|].
+      split; [rewrite fifo_write_nil by lia; assumption|].
+      split; [symmetry; exact D0|]. rewrite zlen_nil.
+      split; [lia|]. split; [lia|]. split; [lia|]. split; [assumption|]. split; [assumption|]. split; [assumption|].
+      split; [|auto].
+      intros bs _ Hw. unfold writer_len in El. rewrite O1, Hw in El. discriminate. }
+  assert (Hl' : 0 < len' <= len /\ (cb_overwrite cb = WRAP_MANY -> len' = len)).
+  { unfold writer_len in El. rewrite O1 in El. destruct (cb_overwrite cb).
+    - destruct (Z.min len (cb_size cb1 - cb_used cb1) =? 0) eqn:E0; [discriminate|]. apply Z.eqb_neq in E0.
+      inversion El; subst. split; [lia|discriminate].
+    - inversion El; subst. split; [lia|discriminate].
+    - inversion El; subst. split; [lia|reflexivity]. }
+  destruct Hl' as (Hl' & Hmany).
+  destruct (wloop (Z.to_nat len') (cb_size cb1 + 1) (cb_data cb1) (cb_i_in cb1) len' src 0)
+    as [[[[data' i_dst] nleft'] src1] m] eqn:Ew.
+  assert (Hok' : src_ok src len') by (destruct src; cbn [src_ok] in *; lia).
+  destruct I1 as (Iv & Ldata1 & Halloc1).
+  apply wloop_gen in Ew; try lia; try assumption.
+  destruct Ew as (w & W1 & W2 & W3 & W4 & W5 & W6 & W7 & W8 & W9 & W10).
+  assert (I1 : Inv cb1) by (split; [assumption|split; assumption]).
+  destruct (len' - nleft' =? 0) eqn:En; [apply Z.eqb_eq in En | apply Z.eqb_neq in En].
+  - intros E; inversion E; subst; clear E. assert (w = []) by (apply zlen_0_nil; lia). subst w.
+    exists []. split; [assumption|]. split; [assumption|].
+    split; [rewrite fifo_write_nil by lia; assumption|].
+    split; [symmetry; exact D0|]. rewrite zlen_nil.
+    split; [lia|]. split; [intros _; apply W8; lia|]. split; [lia|].
+    split; [assumption|]. split; [assumption|]. split; [assumption|]. split; [|exact W10].
+    intros bs Hs Hw. destruct (W9 bs Hs) as (W91 & _). lia.
+  - intros E; inversion E; subst; clear E. exists w.
+    pose proof (commit_spec cb1 (len' - nleft') i_dst data' w I1 ltac:(lia) W1 W3 W4) as C.
+    rewrite <- W1 in C at 1. specialize (C W5). rewrite <- W1 in C at 1. specialize (C W6).
+    cbv zeta in C. destruct C as (K1 & K2 & K3 & K4 & K5 & K6 & K7).
+    split; [assumption|]. split; [assumption|].
+    assert (FW : fifo_write (cb_size cb1) (abs cb) w = fifo_write (cb_maxsize cb) (abs cb) w
+                 /\ Z.max 0 (len' - nleft' - (cb_size cb1 - cb_used cb1)) = fifo_dropped (cb_maxsize cb) (abs cb) w).
+    { unfold fifo_dropped. change qlen with (@zlen byte). rewrite LA, W1.
+      destruct C1 as [C1|C1].
+      - rewrite !fifo_write_fits by lia. split; [reflexivity|lia].
+      - rewrite C1, M1. split; [reflexivity|lia]. }
+    destruct FW as (FW1 & FW2).
+    split; [rewrite K2, A1; exact FW1|].
+    split; [exact FW2|].
+    split; [intros; lia|]. split; [intros; lia|]. split; [lia|].
+    split; [lia|]. split; [lia|]. split; [congruence|]. split; [|exact W10].
+    intros bs Hs Hw. destruct (W9 bs Hs) as (W91 & W92). specialize (Hmany Hw). subst len'.
+    split; [assumption|lia].
+Qed.
+
+(* ---- cbuf_write (powerman's only overwrite mode is the default, CBUF_WRAP_MANY) ---- *)
+Lemma write_spec cb bs cb' n d : Inv cb -> cb_overwrite cb = WRAP_MANY -> write cb bs = (cb', n, d) ->
+  Inv cb' /\ n = zlen bs /\ abs cb' = fifo_write (cb_maxsize cb) (abs cb) bs
+  /\ d = fifo_dropped (cb_maxsize cb) (abs cb) bs
+  /\ cb_maxsize cb' = cb_maxsize cb /\ cb_overwrite cb' = WRAP_MANY.
+Proof.
+  intros H Hw. unfold write. pose proof (zlen_abs _ H) as LA.
+  pose proof (Inv_valid _ H) as V. unfold valid_prop in V. cbv zeta in V.
+  destruct (zlen bs =? 0) eqn:E0; [apply Z.eqb_eq in E0 | apply Z.eqb_neq in E0].
+  - intros E; inversion E; subst; clear E. apply zlen_0_nil in E0. subst bs.
+    split; [assumption|]. split; [reflexivity|]. split; [rewrite fifo_write_nil by lia; reflexivity|].
+    split; [|split; [reflexivity|assumption]].
+    symmetry. apply fifo_dropped_nil. lia.
+  - destruct (writer cb (zlen bs) (SrcMem bs)) as [[[cb1 n1] d1] s1] eqn:Ew. intros E; inversion E; subst; clear E.
+    pose proof (zlen_nonneg bs).
+    apply writer_spec in Ew; [|assumption|lia|cbn; lia].
+    destruct Ew as (w & W1 & W2 & W3 & W4 & W5 & W6 & W7 & W8 & W9 & W10 & W11 & _).
+    destruct (W11 bs eq_refl Hw) as (Ww & Wn). rewrite ztake_all in Ww by lia. subst w.
+    split; [assumption|]. split; [assumption|]. split; [assumption|]. split; [assumption|].
+    split; [assumption|congruence].
+Qed.
+
+(* ---- cbuf_write_from_fd: the buffer receives exactly the bytes taken from the descriptor, in order ---- *)
+Lemma write_from_fd_spec cb fd len cb' ret d fd' : Inv cb -> write_from_fd cb fd len = (cb', ret, d, fd') ->
+  exists w, Inv cb' /\ fd_bytes fd = w ++ fd_bytes fd'
+    /\ abs cb' = fifo_write (cb_maxsize cb) (abs cb) w
+    /\ d = fifo_dropped (cb_maxsize cb) (abs cb) w
+    /\ (0 < zlen w -> ret = zlen w) /\ (zlen w = 0 -> ret <= 0)
+    /\ cb_maxsize cb' = cb_maxsize cb /\ cb_overwrite cb' = cb_overwrite cb.
+Proof.
+  intros H. unfold write_from_fd. pose proof (zlen_abs _ H) as LA.
+  pose proof (Inv_valid _ H) as V. unfold valid_prop in V. cbv zeta in V.
+  assert (Z0 : forall r, r <= 0 -> exists w, Inv cb /\ fd_bytes fd = w ++ fd_bytes fd
+    /\ abs cb = fifo_write (cb_maxsize cb) (abs cb) w /\ 0 = fifo_dropped (cb_maxsize cb) (abs cb) w
+    /\ (0 < zlen w -> r = zlen w) /\ (zlen w = 0 -> r <= 0)
+    /\ cb_maxsize cb = cb_maxsize cb /\ cb_overwrite cb = cb_overwrite cb).
+  { intros r Hr. exists []. split; [assumption|]. split; [reflexivity|].
+    split; [rewrite fifo_write_nil by lia; reflexivity|].
+    split; [symmetry; apply fifo_dropped_nil; lia|].
+    rewrite zlen_nil. repeat split; lia. }
+  destruct (len <? -1) eqn:E1; [apply Z.ltb_lt in E1 | apply Z.ltb_ge in E1].
+  { intros E; inversion E; subst; clear E. apply Z0. lia. }
+  set (l := if len =? -1 then (if cb_size cb - cb_used cb =? 0 then CBUF_CHUNK else cb_size cb - cb_used cb) else len).
+  destruct (0 <? l) eqn:E2; [apply Z.ltb_lt in E2 | apply Z.ltb_ge in E2].
+  2:{ intros E; inversion E; subst; clear E. apply Z0. lia. }
+  destruct (writer cb l (SrcFd fd)) as [[[cb1 n1] d1] s1] eqn:Ew.
+  apply writer_spec in Ew; [|assumption|lia|exact I].
+  destruct Ew as (w & W1 & W2 & W3 & W4 & W5 & W6 & W7 & W8 & W9 & W10 & W11 & W12).
+  destruct s1 as [bs1|fd1]; [destruct (W12 I)|].
+  intros E; inversion E; subst; clear E. exists w. cbn [src_bytes] in W2.
+  split; [assumption|]. split; [assumption|]. split; [assumption|]. split; [assumption|].
+  split; [assumption|]. split; [assumption|]. split; assumption.
 Qed.
